@@ -19,6 +19,8 @@ func c11Configs(thorough bool) []lockCfg {
 	cs := []lockCfg{
 		{Name: "two-tied-max2-tk2w3", Powers: []uint64{2, 2}, MaxValidators: 2, Tk2Weight: 3, Tk2Threshold: 0, Candidates: 3},
 		{Name: "one-max3-tk2thr", Powers: []uint64{3}, MaxValidators: 3, Tk2Weight: 0, Tk2Threshold: 1, Candidates: 2},
+		// a negative double-sign fraction: explored only while the module's own validation admits it
+		{Name: "two-max2-negative-double-sign-fraction", Powers: []uint64{3, 2}, MaxValidators: 2, Tk2Weight: 1, Tk2Threshold: 0, Candidates: 3, DoubleSignFraction: "-0.05"},
 		{Name: "two-max2-equal-delays", Powers: []uint64{3, 2}, MaxValidators: 2, Tk2Weight: 1, Tk2Threshold: 0, Candidates: 3, EqualDurations: true},
 	}
 	if thorough {
@@ -236,7 +238,14 @@ func runC11(r *mc.Run) {
 	cfgs := c11Configs(r.Thorough())
 	completed := depth
 	for _, c := range cfgs {
+		if err := c.admitted(); err != nil {
+			r.Outcome("configuration-refused-by-the-chain's-own-validation:" + c.Name)
+			continue
+		}
 		d := depth
+		if c.DoubleSignFraction != "" {
+			d = 2
+		}
 		if c.EqualDurations {
 			d = depth - 2 // the corner this configuration adds shows in the block of the requests; the budget goes to the other two
 		}
